@@ -138,6 +138,9 @@ class Class:
         return self.node.name
 
 
+_TREES = {}
+
+
 class Module:
     def __init__(self, name, path, relpath, source):
         self.name = name
@@ -145,7 +148,13 @@ class Module:
         self.relpath = relpath
         self.source = source
         self.digest = hashlib.sha256(source.encode()).hexdigest()[:16]
-        self.tree = _Mangle().visit(ast.parse(source, path))
+        # parsed trees are shared between Program instances of one process (variants re-parse only the edited file);
+        # the AST is treated as read-only after un-mangling
+        key = (path, self.digest)
+        tree = _TREES.get(key)
+        if tree is None:
+            tree = _TREES[key] = _Mangle().visit(ast.parse(source, path))
+        self.tree = tree
         self.is_pkg = os.path.basename(path) == '__init__.py'
         self.imports = {}  # local name -> dotted target ('mod' or 'mod.sym')
         self.globals = {}  # name -> list of assignment value nodes (module level, incl. if/else arms)
